@@ -15,7 +15,7 @@
    * [FOutside]: the call returns an object that the model's universe cannot express (an association whose key
      or value is a notation / collection object, possible under K or V = any). *)
 From Coq Require Import String.
-From Verif Require Import Base Sorter Value Seq Coll Pool Params Facade ModuleLang.
+From Verif Require Import Base Sorter Value Seq Coll Pool Params Facade ModuleLang GenModule.
 Open Scope Z_scope.
 
 Inductive mval :=
@@ -414,6 +414,27 @@ Definition with_argument (c : mctx) (a : arg) : mctx :=
 Definition with_item (c : mctx) (m : mval) : mctx :=
   {| c_tk := c_tk c; c_tv := c_tv c; c_actual := c_actual c; c_argument := c_argument c; c_item := m |}.
 
+(* a call of a private helper function of Module.go (GenModule.gen_helpers, by canonical id): the arguments are bound to
+   the helper's first locals, the body runs with the caller's type parameters; collections are references: what the helper
+   did to a collection it was handed in a local of the caller is visible in that local afterwards *)
+Fixpoint find_helper (name : string) (hs : list (string * (nat * gen_ctor))) : option (nat * gen_ctor) :=
+  match hs with
+  | [] => None
+  | (n, h) :: r => if String.eqb n name then Some h else find_helper name r
+  end.
+Fixpoint write_back (caller : menv) (hargs : list mexpr) (callee : menv) (i : nat) : menv :=
+  match hargs with
+  | [] => caller
+  | ELocal n :: r =>
+    match lget callee i with
+    | MObj o => write_back (lset caller n (MObj o)) r callee (S i)
+    | _ => write_back caller r callee (S i)
+    end
+  | _ :: r => write_back caller r callee (S i)
+  end.
+Definition callee_ctx (c : mctx) : mctx :=
+  {| c_tk := c_tk c; c_tv := c_tv c; c_actual := None; c_argument := None; c_item := MNone |}.
+
 Section Exec.
 Variable args : list arg.                    (* the variadic parameter *)
 Variable rec : mctx -> menv -> list mstmt -> mres.   (* the executor for nested blocks *)
@@ -485,6 +506,25 @@ Definition exec1 (c : mctx) (e : menv) (s : mstmt) : mres :=
         end
       | _ => RStuck
       end
+    | EFun pkg name hargs =>
+      if String.eqb pkg "" then
+        match find_helper name gen_helpers with
+        | Some (np, h) =>
+          match eval_list c e hargs with
+          | inl (Some ms) =>
+            if Nat.eqb (List.length ms) np then
+              match rec (callee_ctx c) ((ms ++ repeat MNone (g_locals h - np))%list) (g_body h) with
+              | RNormal e' => RNormal (write_back e hargs e' 0%nat)
+              | RPanic => RPanic | RHang => RHang
+              | _ => RStuck          (* a helper that returns a value is not called as a statement *)
+              end
+            else RStuck
+          | inl None => RStuck
+          | inr EPanic => RPanic | inr EHang => RHang | inr _ => RStuck
+          end
+        | None => RStuck
+        end
+      else RStuck
     | _ => RStuck
     end
   | SInc n => match lget e n with MZ z => RNormal (lset e n (MZ (z + 1))) | _ => RStuck end
